@@ -8,10 +8,12 @@ import (
 	"flag"
 	"fmt"
 	"math/rand"
+	"net"
 	"net/netip"
 	"strings"
 
 	"github.com/scionproto/scion/pkg/addr"
+	"github.com/scionproto/scion/pkg/snet"
 
 	"verifharness/internal/vt"
 )
@@ -56,7 +58,7 @@ func encISD(i addr.ISD) []int { return []int{int(i)} }
 func encAS(a addr.AS) []int {
 	return []int{int(a>>32) & 0xffff, int(a>>16) & 0xffff, int(a) & 0xffff}
 }
-func encIA(ia addr.IA) []int { return append(encISD(ia.ISD()), encAS(ia.AS())...) }
+func encIA(ia addr.IA) []int  { return append(encISD(ia.ISD()), encAS(ia.AS())...) }
 func encSVC(s addr.SVC) []int { return []int{int(s)} }
 func encHost(h addr.Host) []int {
 	switch h.Type() {
@@ -74,6 +76,19 @@ func encHost(h addr.Host) []int {
 	return []int{0}
 }
 func encAddr(a addr.Addr) []int { return append(encIA(a.IA), encHost(a.Host)...) }
+
+// encUDPAddr: the host of an snet.UDPAddr is a net.IP, for which an IPv4-mapped IPv6 address is the IPv4
+// address (net.IP.Equal, To4); the value is logged in that normal form.
+func encUDPAddr(u *snet.UDPAddr) []int {
+	if u == nil || u.Host == nil {
+		return []int{}
+	}
+	r := append([]int{u.Host.Port}, encIA(u.IA)...)
+	if v4 := u.Host.IP.To4(); v4 != nil {
+		return append(append(r, 4), vt.Ints(v4)...)
+	}
+	return append(append(append(r, 6), vt.Ints(u.Host.IP.To16())...), codes(u.Host.Zone)...)
+}
 
 // call runs one parsing entry point of the real code; a panic is recorded as an event of its own.
 func call(kind, api, text string, f func() ([]int, error)) (r pres) {
@@ -172,6 +187,16 @@ func parseAll(kind, text string, o opt) []pres {
 			var v addr.Addr
 			err := v.UnmarshalText([]byte(text))
 			return encAddr(v), err
+		}))
+	case "udpaddr":
+		p = append(p, call(kind, "ParseUDPAddr", text, func() ([]int, error) {
+			v, err := snet.ParseUDPAddr(text)
+			return encUDPAddr(v), err
+		}))
+		p = append(p, call(kind, "UDPAddr.Set", text, func() ([]int, error) {
+			v := &snet.UDPAddr{}
+			err := v.Set(text)
+			return encUDPAddr(v), err
 		}))
 	case "addrport":
 		p = append(p, call(kind, "ParseAddrPort", text, func() ([]int, error) {
@@ -677,6 +702,40 @@ func main() {
 					emitParse("addrport", m.class, none, m.text)
 				}
 			}
+		}
+	}
+	// snet.UDPAddr: String / ParseUDPAddr / Set, the legacy input forms, and service hosts (which have no
+	// UDP address). Only texts whose host part is an IP literal or that start with '[' are used, so that the
+	// legacy parser never reaches the DNS resolver.
+	for k, h := range hosts {
+		if h.Type() != addr.HostTypeIP || (h.IP().Is4In6() && h.IP().Zone() != "") {
+			continue
+		}
+		ia := addr.MustIAFrom(isds[k%len(isds)], ases[(k*7)%len(ases)])
+		port := []int{0, 1, 80, 30041, 65535, rng.Intn(65536)}[k%6]
+		u := &snet.UDPAddr{IA: ia, Host: &net.UDPAddr{IP: h.IP().AsSlice(), Zone: h.IP().Zone(), Port: port}}
+		t, ok := safeFmt("udpaddr", "UDPAddr.String", func() string { return u.String() })
+		if !ok {
+			continue
+		}
+		emitFmt("udpaddr", "UDPAddr.String", encUDPAddr(u), none, t)
+		ip := h.IP().String()
+		for _, l := range []string{ia.String() + ",[" + ip + "]:" + fmt.Sprint(port), ia.String() + "," + ip, ia.String() + ",[" + ip + "]"} {
+			emitParse("udpaddr", "legacy", none, l)
+		}
+		if h.IP().Is4() {
+			emitParse("udpaddr", "legacy", none, ia.String()+","+ip+":"+fmt.Sprint(port))
+		}
+		if strings.HasPrefix(t, "[") && rng.Intn(mutEvery/3+1) == 0 {
+			for _, m := range portMutants(rng, t) {
+				emitParse("udpaddr", m.class, none, m.text)
+			}
+		}
+	}
+	for _, svc := range []string{"CS", "DS", "Wildcard", "CS_M", "DS_A", "Wildcard_M"} {
+		for _, ia := range []string{"1-ff00:0:110", "1-64512", "65535-ffff:ffff:ffff", "0-0"} {
+			emitParse("udpaddr", "svc-host", none, "["+ia+","+svc+"]:80")
+			emitParse("udpaddr", "svc-host", none, "["+ia+","+svc+"]:0")
 		}
 	}
 	for k := 0; k < 200*n; k++ {
